@@ -188,7 +188,13 @@ fn random_file(rng: &mut Rng_, pool: &Pool, xorbs: &[XorbRec], h: MerkleHash) ->
         let x = pool.xorb_hashes[r2.gen_range(0..pool.xorb_hashes.len())];
         let lo = r2.gen_range(0..5u32);
         let hi = lo + r2.gen_range(1..4u32);
-        segs.push((x, lo, hi, r2.gen_range(1..100000u32)));
+        // mostly small; sometimes at the 32-bit extremes, so that per-file and per-shard totals pass 2^32
+        let nbytes = match r2.gen_range(0..10) {
+            0 => [u32::MAX, u32::MAX - 1, 1 << 31, 3 << 30, (1 << 31) + 1][r2.gen_range(0..5)],
+            1 => r2.gen_range(1u32 << 28..=u32::MAX),
+            _ => r2.gen_range(1..100000u32),
+        };
+        segs.push((x, lo, hi, nbytes));
     }
     let _ = xorbs;
     let verif = if rng.gen_bool(0.5) {
@@ -236,10 +242,15 @@ fn serialize(mem: &MDBInMemoryShard) -> Vec<u8> {
     v
 }
 
+/// 64-bit totals as <<low 16 bits, rest>> (TLC integers are 32-bit)
+fn limbs(x: u64) -> Value {
+    json!([x & 0xffff, x >> 16])
+}
+
 fn file_json(ids: &mut Ids, f: &MDBFileInfo) -> Value {
     json!({
         "h": ids.h(&f.metadata.file_hash),
-        "segs": f.segments.iter().map(|s| json!([ids.h(&s.cas_hash), s.chunk_index_start, s.chunk_index_end, s.unpacked_segment_bytes])).collect::<Vec<_>>(),
+        "segs": f.segments.iter().map(|s| json!([ids.h(&s.cas_hash), s.chunk_index_start, s.chunk_index_end, s.unpacked_segment_bytes & 0xffff, s.unpacked_segment_bytes >> 16])).collect::<Vec<_>>(),
         "verif": f.contains_verification(),
         "meta": f.contains_metadata_ext(),
         "vids": f.verification.iter().map(|v| ids.h(&v.range_hash)).collect::<Vec<_>>(),
@@ -281,7 +292,7 @@ fn listing(ids: &mut Ids, bytes: &[u8]) -> Result<Value, String> {
         "files": files.iter().map(|f| file_json(ids, f)).collect::<Vec<_>>(),
         "xorbs": cas.iter().map(|c| cas_json(ids, c)).collect::<Vec<_>>(),
         "key": ids.h(&si.metadata.chunk_hash_hmac_key)[1],
-        "materialized": si.materialized_bytes(), "stored": si.stored_bytes(),
+        "materialized": limbs(si.materialized_bytes()), "stored": si.stored_bytes(),
         "n_file_lookup": si.metadata.file_lookup_num_entry, "n_cas_lookup": si.metadata.cas_lookup_num_entry,
         "n_chunk_lookup": si.metadata.chunk_lookup_num_entry,
     }))
@@ -476,6 +487,17 @@ fn scan_all(ids: &mut Ids, out: &mut Out, sid: &str, bytes: &[u8]) {
                 xorbs.push(cas_json(ids, &c));
             }
             out.ev("ShScan", json!({"sid": sid, "reader": "minimal", "files": files, "xorbs": xorbs}));
+            // the minimal reader writes the shard out again (no lookup tables, totals re-computed from the records)
+            let mut again = vec![];
+            match guarded(|| ms.serialize(&mut again).map(|_| ())) {
+                Ok(Ok(())) => match guarded(|| listing(ids, &again)) {
+                    Ok(Ok(l)) => out.ev("ShScan", json!({"sid": sid, "reader": "minimal_reser", "files": l["files"], "xorbs": l["xorbs"], "materialized": l["materialized"], "stored": l["stored"]})),
+                    Ok(Err(e)) => out.ev("ShError", json!({"sid": sid, "what": format!("minimal re-serialized: {e}")})),
+                    Err(p) => out.ev("ShPanic", json!({"sid": sid, "what": p})),
+                },
+                Ok(Err(e)) => out.ev("ShError", json!({"sid": sid, "what": format!("minimal serialize {e:?}")})),
+                Err(p) => out.ev("ShPanic", json!({"sid": sid, "what": p})),
+            }
         },
         Ok(Err(e)) => out.ev("ShError", json!({"sid": sid, "what": format!("minimal {e:?}")})),
         Err(p) => out.ev("ShPanic", json!({"sid": sid, "what": p})),
@@ -527,7 +549,7 @@ fn run_lookup(ctl: &Arc<Ctl>, rng: &mut Rng_, ids: &mut Ids, out: &mut Out, n: u
         let bytes = serialize(&mem);
         out.ev("ShBuild", model_json(ids, &m));
         out.ev("ShSizes", json!({"sid": m.sid, "mem_size": mem.shard_file_size(), "file_size": bytes.len(),
-                                  "mem_materialized": mem.materialized_bytes(), "mem_stored": mem.stored_bytes()}));
+                                  "mem_materialized": limbs(mem.materialized_bytes()), "mem_stored": mem.stored_bytes()}));
         lookup_all(ids, out, &m, &bytes, &mem, &pool, rng);
         scan_all(ids, out, &m.sid, &bytes);
         out.reset();
